@@ -1,5 +1,5 @@
 """C12 — blackboard reads are atomic and monotone; one writer at a time."""
-import core, re
+import core, compose, re
 import pC12ports
 
 
@@ -27,6 +27,8 @@ def classify(case, idx, impl_out, model_out):
 
 
 def run(ctx):
+    # composition level: call orders regenerated from /repo, witness search (the theorems are built by core.prove below)
+    compose.compose_part(ctx)
     core.prove(ctx)
     drv = core.build_driver(ctx)
     ok, log = core.build_trace(ctx)
@@ -49,7 +51,7 @@ def run(ctx):
         rule="steptrace on UnrestrictedAtomic<[u64; W]>, W in {1,2,5}: one writer thread (copy-style store and loan-style two-step update), 1..2 readers, optional "
              "hand-over of the producer token; PRNG schedules and all schedules with a bounded number of preemptions; every atomic operation / cell access and every "
              "returned value compared with the L2 model; self-checking values (word k = 100 v + k) let the harness detect a torn or stale read on its own. Cell layout "
-             "functions compared with the arithmetic model for random sizes / alignments / payload addresses. distinct = distinct (program, interleaving)",
+             "functions compared with the arithmetic model for random sizes / alignments / payload addresses. distinct = distinct (program, interleaving); " + compose.rule(ctx),
         extra_assumptions=["the instrumented implementation cannot be preempted inside a plain memcpy: word-level interleavings are covered by the theorem (the model steps word by word), not by the traces",
                            "sequentially consistent interleavings only; the RA argument (acquire load / release fetch_add / acq-rel validating CAS) is not mechanised",
-                           "port level: " + str(getattr(pC12ports, "RULE", ""))[:500]] + list(getattr(pC12ports, "ASSUMPTIONS", [])))
+                           "port level: " + str(getattr(pC12ports, "RULE", ""))[:500]] + list(getattr(pC12ports, "ASSUMPTIONS", [])) + compose.ASSUMPTIONS)
